@@ -21,9 +21,10 @@ def rows(sel):
     return out
 w4 = rows(lambda s: s.endswith(("-m5", "-m6")) or s == "C02-m4")
 w5 = rows(lambda s: s.endswith(("-m7", "-m8")))
+w6 = rows(lambda s: s.endswith(("-m9", "-m10")))
 def count(rs):
     return sum("| as built" in r for r in rs), len(rs)
-a4, n4 = count(w4); a5, n5 = count(w5)
+a4, n4 = count(w4); a5, n5 = count(w5); a6, n6 = count(w6)
 nd = [s for s, m in metas.items() if "check" in m and not m.get("detected")]
 block = f"""<!-- seeded-tables-begin -->
 **Wave 4** ({n4} changes incl. the recreated C02-m4, two per claimed property, numbered m5/m6). "as built" = the checks as
@@ -43,7 +44,15 @@ checks as they stood when the change arrived, i.e. after the wave-4 additions:
 |--------|---------------------------|--------|---------------------------|
 """ + "\n".join(w5) + f"""
 
-{a5} of {n5} as built, {n5 - a5} after the listed additions. Not detected by the committed checks: {nd or 'none'}.
+{a5} of {n5} as built, {n5 - a5} after the listed additions.
+
+**Wave 6** ({n6} changes, m9/m10, for the ten properties with the lowest as-built rates in waves 4 and 5):
+
+| change | what it needs to manifest | caught | first violated obligation |
+|--------|---------------------------|--------|---------------------------|
+""" + "\n".join(w6) + f"""
+
+{a6} of {n6} as built, {n6 - a6} after the listed additions. Not detected by the committed checks: {nd or 'none'}.
 <!-- seeded-tables-end -->"""
 p = os.path.join(ROOT, "DESIGN.md")
 s = open(p).read()
